@@ -361,7 +361,7 @@ def run_shard(tier, seed, only, rank, nproc):
                             _none, at = kink
                             at = np.broadcast_to(at, arrs[i].shape) if np.shape(at) != arrs[i].shape else at
                             num = num_vjp(fwd, arrs, i, g)
-                            exp = np.where(at, 0.0, num)
+                            exp = np.ma.where(at, 0.0, num) if isinstance(num, np.ma.MaskedArray) else np.where(at, 0.0, num)
                             ok = grads[i] is not None and close(grads[i], exp, rtol=1e-5, atol=1e-6)
                     else:
                         exp = num_vjp(fwd, arrs, i, g)
